@@ -229,6 +229,10 @@ def layered(inp):
     method = lopts.pop('method')
     lopts['return_imat'] = True
 
+    # The gradient has one value per layer of the model, not per merged layer.
+    if gradient:
+        lopts['merge'] = False
+
     # Collect rec-independent empymod options.
     empymod_opts = {
         # User input ({src;rec}pts, {h;f}t, {h;f}targ, xdirect, loop, verb).
